@@ -320,6 +320,29 @@ fn c19_eq_d1() {
     equality::<1, 5>(5);
 }
 
+/// clone_from from a tensor of a different shape gives a tensor equal to the source (shape included)
+#[kani::proof]
+#[kani::unwind(34)]
+fn c19_clone_from() {
+    let da = any_dims::<2>(3);
+    let db = any_dims::<2>(3);
+    let na = prod(&da);
+    let nb = prod(&db);
+    kani::assume(na <= 6 && nb <= 6);
+    let xa: [u8; 6] = kani::any();
+    let xb: [u8; 6] = kani::any();
+    let mut a = Tensor::<u8, 2>::from_slice(da, &xa[..na]);
+    let b = Tensor::<u8, 2>::from_slice(db, &xb[..nb]);
+    a.clone_from(&b);
+    assert!(arr_eq(a.dims(), &db), "clone_from copies the shape");
+    let i = any_idx(&db);
+    assert!(a[i] == xb[row_major(&db, &i)], "clone_from copies the elements, addressed through the new shape");
+    assert!(a == b);
+    kani::cover!(!arr_eq(&da, &db) && na == nb, "different shape, same element count");
+    core::mem::forget(a);
+    core::mem::forget(b);
+}
+
 /// deliberately false twin (vacuity guard): same assumptions as index_bijection, false claim
 #[kani::proof]
 #[kani::unwind(30)]
